@@ -74,10 +74,15 @@ pub fn any_regs<S: Src>(s: &mut S) -> Registers {
 /// `tmpl`: expected emitter output as a function of the immediates (checked against the real emitter);
 /// `texec`: the same bytes with immediates zeroed and helper addresses replaced by tags (fully constant: executed);
 /// `imm`: (position, value) of the immediate bytes inside the template.
-pub fn check_op<S: Src>(bytes: [u8; 3], tmpl: &[u8], texec: &[u8], tlen: usize, steps: u32, imm: [(usize, u8); 4], s: &mut S) -> Outcome {
+/// `free`: positions whose emitted byte is not an affine function of the immediates (e.g. a constant chosen by an `if` on the
+/// operand): not compared with the template; the model reads the REAL emitter's byte there (as an immediate operand).
+pub fn check_op<S: Src>(bytes: [u8; 3], tmpl: &[u8], texec: &[u8], tlen: usize, steps: u32, imm: [(usize, u8); 4], free: [usize; 2], s: &mut S) -> Outcome {
   bus::setup(s);
   let mut ri = any_regs(s);
-  s.assume(ri.ip <= 0xfffc);
+  // C01 is about blocks located in cartridge ROM (Core::run_code_block interprets everything else)
+  s.assume(ri.ip <= 0x7ffc);
+  // call-site precondition of decode: the instruction lies inside one fetch slice (slices end at bank / 4 KiB boundaries)
+  s.assume((ri.ip & 0xfff) <= 0xffc);
   let start = Registers { af: ri.af, bc: ri.bc, de: ri.de, hl: ri.hl, sp: ri.sp, ip: ri.ip, cycles: ri.cycles };
 
   // --- reference: real interpreter ---
@@ -104,10 +109,11 @@ pub fn check_op<S: Src>(bytes: [u8; 3], tmpl: &[u8], texec: &[u8], tlen: usize, 
   // (a) the real emitter produced exactly the template, for all immediates
   let mut tmpl_ok = written == tlen;
   let mut q = 0;
-  while q < tlen { if q < 512 && buf[q] != tmpl[q] { tmpl_ok = false; } q += 1; }
+  while q < tlen { if q < 512 && q != free[0] && q != free[1] && buf[q] != tmpl[q] { tmpl_ok = false; } q += 1; }
   // (b) semantics of the template
   let mut cpu = X86::new(regs);
-  cpu.imm = imm;
+  cpu.imm = [imm[0], imm[1], imm[2], imm[3],
+             (free[0], if free[0] < 512 { buf[free[0]] } else { 0 }), (free[1], if free[1] < 512 { buf[free[1]] } else { 0 })];
   cpu.havoc_flags();
   let mut env = JitEnv { bad_arg: false, native_targets: false };
   if steps >= 1000 { cpu.run_straight(texec, tlen, &mut env, steps - 1000); } else { cpu.run(texec, tlen, &mut env, steps); }
@@ -150,6 +156,104 @@ pub fn check_op<S: Src>(bytes: [u8; 3], tmpl: &[u8], texec: &[u8], tlen: usize, 
   ], fault: cpu.fault }
 }
 
+
+// ---------------------------------------------------------------------------------------------------------------------
+// Prologue / epilogue: the code that moves the register file between the Registers struct and the host registers.
+pub const REGPTR: u64 = 0x0000_7f55_0000_1000;
+pub const BLOCK_ADDR: u64 = 0x0000_7f66_0000_2000;
+pub const EPILOGUE_ADDR: u64 = 0x0000_7f66_0000_3000;
+
+pub struct FrameEnv { pub regs: [u8; 28], pub bad: bool }
+impl Env for FrameEnv {
+  fn call(&mut self, _target: u64, _cpu: &mut X86) -> bool { false }
+  fn load(&mut self, addr: u64, size: usize) -> u64 {
+    let off = addr.wrapping_sub(REGPTR);
+    if off > 24 || (size != 2 && size != 4) || (off as usize) + size > 28 { self.bad = true; return 0; }
+    let o = off as usize;
+    let mut v = 0u64; let mut k = 0;
+    while k < size { v |= (self.regs[o + k] as u64) << (8 * k); k += 1; }
+    v
+  }
+  fn store(&mut self, addr: u64, size: usize, value: u64) {
+    let off = addr.wrapping_sub(REGPTR);
+    if off > 24 || (size != 2 && size != 4) || (off as usize) + size > 28 { self.bad = true; return; }
+    let o = off as usize;
+    let mut k = 0;
+    while k < size { self.regs[o + k] = (value >> (8 * k)) as u8; k += 1; }
+  }
+}
+fn rd32(b: &[u8; 28], o: usize) -> u32 { (b[o] as u32) | ((b[o + 1] as u32) << 8) | ((b[o + 2] as u32) << 16) | ((b[o + 3] as u32) << 24) }
+
+pub const NFRAME: usize = 8;
+pub const FRAME_NAMES: [&str; NFRAME] = [
+  "C01: prologue/epilogue bytes equal the derived templates",
+  "C01: prologue loads AF, BC, DE, HL, SP, PC from the register file, clears the status and jumps to the block",
+  "C02: prologue loads the pending cycle count into r15",
+  "C01: block epilogue jumps to the epilogue function",
+  "C01: epilogue stores AF, BC, DE, HL, SP, PC into the register file",
+  "C02: epilogue stores the cycle counter",
+  "C01: epilogue returns the status, restores callee-saved registers and the host stack",
+  "C01: prologue/epilogue touch only the register file" ];
+
+/// pre/epi/bepi: constant copies of the three emitted sequences (checked against the real emitter first)
+pub fn check_frame<S: Src>(pre: &[u8], npre: usize, epi: &[u8], nepi: usize, bepi: &[u8], nbepi: usize, s: &mut S) -> [bool; NFRAME] {
+  // (a) the real emitter produces exactly these bytes
+  let emitter = crate::emitter::Emitter::new(MEMPTR as *const MemoryAreas);
+  let mut b1 = [0u8; 128]; let mut b2 = [0u8; 128]; let mut b3 = [0u8; 16];
+  let n1 = crate::emitter::Emitter::write_prelude_function(&mut b1);
+  let n2 = crate::emitter::Emitter::write_epilogue_function(&mut b2);
+  let n3 = emitter.encode_epilogue(&mut b3);
+  let mut tmpl_ok = n1 == npre && n2 == nepi && n3 == nbepi;
+  let mut q = 0; while q < npre { if q < 128 && b1[q] != pre[q] { tmpl_ok = false; } q += 1; }
+  q = 0; while q < nepi { if q < 128 && b2[q] != epi[q] { tmpl_ok = false; } q += 1; }
+  q = 0; while q < nbepi { if q < 16 && b3[q] != bepi[q] { tmpl_ok = false; } q += 1; }
+
+  // arbitrary register file (pairs and counters within their ranges) and arbitrary host registers
+  let mut env = FrameEnv { regs: [0; 28], bad: false };
+  let start = any_regs(s);
+  let (saf, sbc, sde, shl, ssp, sip, scyc) = (start.af, start.bc, start.de, start.hl, start.sp, start.ip, start.cycles);
+  let words = [saf, sbc, sde, shl, ssp, sip, scyc];
+  let mut w = 0; while w < 7 { let mut k = 0; while k < 4 { env.regs[4 * w + k] = (words[w] >> (8 * k)) as u8; k += 1; } w += 1; }
+  let mut regs = [0u64; 16];
+  let mut i = 0; while i < 16 { regs[i] = s.u64(); i += 1; }
+  regs[RDI] = REGPTR; regs[RSI] = BLOCK_ADDR; regs[RDX] = EPILOGUE_ADDR;
+  let saved = (regs[RBX], regs[RBP], regs[R12], regs[R13], regs[R14], regs[R15], regs[RSP]);
+  let mut cpu = X86::new(regs);
+  cpu.havoc_flags();
+
+  // prologue
+  cpu.run_straight(pre, npre, &mut env, 40);
+  let pro_ok = cpu.exit == Exit::JmpReg(RSI) && cpu.fault == 0 && !env.bad && cpu.r[RSI] == BLOCK_ADDR
+    && cpu.r[RAX] as u32 == saf && cpu.r[RBX] as u32 == sbc && cpu.r[RDX] as u32 == sde && cpu.r[RCX] as u32 == shl
+    && cpu.r[R12] as u16 as u32 == ssp && cpu.r[R13] as u16 as u32 == sip && cpu.r[R14] == 0;
+  let cyc_in_ok = cpu.r[R15] as u16 as u32 == scyc;
+
+  // the block: arbitrary effect on the guest registers, stack balanced
+  let (naf, nbc, nde, nhl) = (s.u32() as u64, s.u32() as u64, s.u32() as u64, s.u32() as u64);
+  cpu.r[RAX] = naf; cpu.r[RBX] = nbc; cpu.r[RDX] = nde; cpu.r[RCX] = nhl;
+  cpu.r[R12] = s.u64(); cpu.r[R13] = s.u64(); cpu.r[R14] = s.u64(); cpu.r[R15] = s.u64();
+  cpu.r[RSI] = s.u64(); cpu.r[RDI] = s.u64();
+  let (n12, n13, n14, n15) = (cpu.r[R12], cpu.r[R13], cpu.r[R14], cpu.r[R15]);
+  cpu.havoc_flags();
+
+  // block epilogue: pop the epilogue address and jump to it
+  cpu.exit = Exit::Running; cpu.pc = 0;
+  cpu.run_straight(bepi, nbepi, &mut env, 8);
+  let bepi_ok = cpu.exit == Exit::JmpReg(RDI) && cpu.fault == 0 && cpu.r[RDI] == EPILOGUE_ADDR;
+
+  // epilogue function
+  cpu.exit = Exit::Running; cpu.pc = 0;
+  cpu.run_straight(epi, nepi, &mut env, 40);
+  let r = &env.regs;
+  let store_ok = !env.bad && rd32(r, 0) == naf as u32 && rd32(r, 4) == nbc as u32 && rd32(r, 8) == nde as u32 && rd32(r, 12) == nhl as u32
+    && rd32(r, 16) == (n12 as u16 as u32) && rd32(r, 20) == (n13 as u16 as u32);
+  let cyc_out_ok = rd32(r, 24) == (n15 as u16 as u32);
+  let ret_ok = cpu.exit == Exit::Ret && cpu.fault == 0 && cpu.r[RAX] as u8 == n14 as u8
+    && cpu.r[RBX] == saved.0 && cpu.r[RBP] == saved.1 && cpu.r[R12] == saved.2 && cpu.r[R13] == saved.3 && cpu.r[R14] == saved.4 && cpu.r[R15] == saved.5
+    && cpu.r[RSP] == saved.6 && cpu.sp_off == STACK_BYTES;
+  [tmpl_ok, pro_ok, cyc_in_ok, bepi_ok, store_ok, cyc_out_ok, ret_ok, !env.bad]
+}
+
 pub fn fnb(f: u64, k: u32) -> u8 { (f >> (8 * k)) as u8 }
 
 #[cfg(all(kani, feature = "h_jit"))]
@@ -172,8 +276,23 @@ mod harnesses {
       }
     }};
   }
-  fn run(bytes: [u8; 3], tmpl: &[u8], texec: &[u8], tlen: usize, steps: u32, imm: [(usize, u8); 4]) {
-    let o = check_op(bytes, tmpl, texec, tlen, steps, imm, &mut crate::src_any::K);
+  fn run_frame(pre: &[u8], npre: usize, epi: &[u8], nepi: usize, bepi: &[u8], nbepi: usize) {
+    let o = check_frame(pre, npre, epi, nepi, bepi, nbepi, &mut crate::src_any::K);
+    let sel: u8 = kani::any();
+    match sel {
+      0 => assert!(o[0], "C01: prologue/epilogue bytes equal the derived templates"),
+      1 => assert!(o[1], "C01: prologue loads AF, BC, DE, HL, SP, PC from the register file, clears the status and jumps to the block"),
+      2 => assert!(o[2], "C02: prologue loads the pending cycle count into r15"),
+      3 => assert!(o[3], "C01: block epilogue jumps to the epilogue function"),
+      4 => assert!(o[4], "C01: epilogue stores AF, BC, DE, HL, SP, PC into the register file"),
+      5 => assert!(o[5], "C02: epilogue stores the cycle counter"),
+      6 => assert!(o[6], "C01: epilogue returns the status, restores callee-saved registers and the host stack"),
+      7 => assert!(o[7], "C01: prologue/epilogue touch only the register file"),
+      _ => { kani::cover!(true, "reachable"); },
+    }
+  }
+  fn run(bytes: [u8; 3], tmpl: &[u8], texec: &[u8], tlen: usize, steps: u32, imm: [(usize, u8); 4], free: [usize; 2]) {
+    let o = check_op(bytes, tmpl, texec, tlen, steps, imm, free, &mut crate::src_any::K);
     select_assert!(o);
   }
   include!(concat!(env!("CARGO_MANIFEST_DIR"), "/gen/jit_gen.rs"));
